@@ -329,6 +329,8 @@ def mixed_part(ctx, rp):
     active) AND one of its tasks past execution.  The pass the finished task triggers must see the pilot as the
     notification reports it: no waiting task is bound to a pilot the scheduler has just been told is final."""
     n = 0
+    cfg = bf_cfg(rp)
+    mops, impl = [], []
     for pstate in ('DONE', 'FAILED', 'CANCELED', 'PMGR_ACTIVE'):
         for first in ('pilot', 'task'):
             for second_pilot in (False, True):
@@ -336,9 +338,17 @@ def mixed_part(ctx, rp):
                 res = run_mixed(rp, ops)
                 n += 1
                 ctx.case({'mixed': [pstate, first, second_pilot]}, nontrivial=pstate != 'PMGR_ACTIVE')
+                mops.append({'op': 'bf', 'ops': ops, 'start': cfg['start'], 'stop': cfg['stop'], 'hwm': cfg['hwm']})
+                impl.append(res)
                 inp = {'kind': 'bf', 'mixed': {'pstate': pstate, 'first': first, 'second_pilot': second_pilot}}
                 bad = mixed_monitor(pstate, second_pilot, res)
                 if bad: ctx.fail(bad[0], bad[1], inp)
+    def canon(r):
+        if not isinstance(r, list): return r
+        return [{'outs': [list(o) for o in x['outs']], 'err': x['err'], 'pids': x['state']['pids'], 'wait': x['state']['wait'],
+                 'early': sorted([list(e) for e in x['state']['early']]), 'pilots': sorted([list(p) for p in x['state']['pilots']])} for x in r]
+    common.compare(ctx, 'tmgrsched', mops, impl, canon=canon,
+                   what='Backfilling, one notification naming a pilot and one of its tasks (model bfMixed): forwards, wait pool, pilot table')
     ctx.obligation('Backfilling: one notification reporting a pilot final and one of its tasks finished: no waiting task is bound to the '
                    'final pilot, the waiting tasks go to a pilot added later (%d notifications)' % n, 'tie', True, '')
 
